@@ -29,7 +29,7 @@ Inductive skind :=
 | SKBool                       (* self.f = bool(b) *)
 | SKInt                        (* self.f |= (int(b) << lshift) *)
 | SKCast (w : Z)               (* self.f |= bp.intW((int(b) << lshift)) *)
-| SKEnum (members : list Z).   (* self.f |= (EnumT(b) << lshift) *)
+| SKProxy.                     (* self._enum_field_proxy__f |= (int(b) << lshift): raw attribute *)
 Record sent := { s_depth : nat; s_kind : skind }.
 Record ient := { i_depth : nat; i_shift : Z; i_mask : Z }. (* if (x >> shift) & 1: x |= mask *)
 
@@ -69,6 +69,13 @@ Definition read_attr (c : cls) (acc : val) (fn : Z) : res val :=
                        end
           end
       end
+  | _ => Raise AttributeError
+  end.
+
+(* the integer proxy attribute of an enum field: no IntEnum conversion *)
+Definition read_attr_raw (acc : val) (fn : Z) : res val :=
+  match acc with
+  | VM fs => match lookup fn fs with Some x => Ok x | None => Raise AttributeError end
   | _ => Raise AttributeError
   end.
 
@@ -164,12 +171,10 @@ Definition set_byte (c : cls) (acc : val) (fn : Z) (stk : list nat) (lshift b : 
           x <- read_ref c acc fn stk (s_depth s) ;;
           z <- int_of x ;;
           write_ref c acc fn stk (s_depth s) (VZ (Z.lor z (cast_w w (Z.shiftl b lshift))))
-      | SKEnum ms =>
-          x <- read_ref c acc fn stk (s_depth s) ;;
+      | SKProxy =>
+          x <- read_attr_raw acc fn ;;
           z <- int_of x ;;
-          if is_member b ms
-          then write_ref c acc fn stk (s_depth s) (VZ (Z.lor z (Z.shiftl b lshift)))
-          else Raise ValueError
+          write_attr acc fn (VZ (Z.lor z (Z.shiftl b lshift)))
       end
   end.
 
@@ -309,7 +314,7 @@ Fixpoint p_dec (p : proc) (c : cls) (acc : val) (fn : Z) (stk : list nat) (x : c
               | O => Ok (acc, x)
               | S m' => r <- p_dec e c acc fn (stk ++ [k]) x ;; loop m' (S k) (fst r) (snd r)
               end) cap O acc (snd r0) ;;
-      Ok (fst r, if ext then skip_to (array_ito i0 (fst r0) (Z.of_nat cap)) (snd r) else snd r)
+      Ok (fst r, if ext then skip_to (array_ito i0 (fst r0) (Z.of_nat cap) (ci (snd r))) (snd r) else snd r)
   | PMsg ext nb fs c' =>
       child <- (if di_is_valid fn then get_accessor c acc fn stk else Ok acc) ;;
       let i0 := ci x in
@@ -379,7 +384,7 @@ Definition cls_of (fs : list (Z * ty)) : cls :=
                              s_kind := match lt with
                                        | TBool => SKBool
                                        | TInt n => SKCast (int_storage_bits n)
-                                       | TEnum _ ms => SKEnum ms
+                                       | TEnum _ _ => match d with O => SKProxy | _ => SKInt end
                                        | _ => SKInt
                                        end |})
         | None => None end) fs;
